@@ -10,6 +10,8 @@ ENGINES = [
                        'JSON delta-debugging of failing cases into replay files, known-findings handling, evidence'},
     {'name': 'smtp-session-model', 'path': 'vf/smtpmodel.py', 'serves_properties': ['C07', 'C09'],
      'kind_free_text': 'synchronous Server/SmtpEdge sessions on a scripted socket, verdicts encoded in command arguments, reference SMTP automaton, lock-step judge'},
+    {'name': 'reactive-peer', 'path': 'vf/props/c10.py', 'serves_properties': ['C10'],
+     'kind_free_text': 'in-memory downstream that parses what the client sends and only then makes the scripted replies readable; a read when nothing is owed raises'},
     {'name': 'scripted-socket', 'path': 'vf/transport.py', 'serves_properties': ['C05', 'C17'],
      'kind_free_text': 'in-memory socket whose recv() segmentation is a generated input'},
 ]
@@ -86,6 +88,16 @@ CHECKS['C09'] = {
             'and queued envelopes must be identical and, for grammar streams, equal to the reference automaton (content never executed, commands never swallowed)',
     'design_ref': 'DESIGN.md section 2 C09',
     'note': 'message sizes kept 20 bytes away from the SIZE limit; every segmentation ends with EOF',
+}
+CHECKS['C10'] = {
+    'engine': 'reactive-peer',
+    'level': 'exploration',
+    'technique': 'model-based property testing: Hypothesis call sequences on Client/LmtpClient against a reactive in-memory peer with a generated reply script; reference pairing by slot index',
+    'text': 'valid call sequences (1..3 transactions, pipelined or not, SMTP and LMTP) against a peer that owes a scripted reply only after it has parsed '
+            'the command; after every synchronising call each returned Reply must hold the script entry of its own slot; a recv() when nothing '
+            'is owed is a violation; LMTP send_data must return exactly the 2xx recipients in order',
+    'design_ref': 'DESIGN.md section 2 C10',
+    'note': 'the peer is a conforming server answering in order; callers never abandon a transaction without DATA or RSET',
 }
 
 NOT_APPLICABLE = {}
